@@ -17,6 +17,10 @@ K : trace validation.  Every exposed optimiser is run on 1-4 parameter toy probl
     of the output as a function of the element type numpy infers for the reduced vector), the driver executes the typed definitions
     `projectUpT` / `objectFuncT` / `runWrapperT` with the element types observed on the real call (p0, queries, answer), and
     `C12_up_store` / `C12_up_dtype` / `C12_objective_dtype` / `C12_run_dtype` prove them equal to the untyped ones.
+    Round 5: the grid search is not replayed but MODELLED (`runGridT`: the generated optimize_grid row around the enumeration `bruteOpt (gridPoints
+    slices)`): from the caller's slices and fixed_params alone the model must reproduce the evaluation points in order, every value, brute's answer,
+    the returned pair (op `grid:optimize_grid`); `perturb_params` goes through `perturbFold` (generated exponent of the draw + generated clamps) for
+    every fold; the arguments each wrapper hands to `_object_func`, bound against its signature on the real call, against the generated `objCalls`.
 L3: the property statement evaluated on the real calls, independent of the model: no exception, first model evaluation is
     the user's start, every evaluation inside the bounds and carrying the fixed values, returned vector fixed/in bounds,
     likelihood of the returned vector (recomputed from the toy model) equals the reported optimum, `opt` not worse than
@@ -1600,8 +1604,13 @@ def run(chk, ctx):
                 'and the best of those is returned. projections: reduced / full vectors in every spelling above plus float32 arrays and a bare Python / numpy scalar '
                 'for a single free parameter, integer-valued free entries next to non-integer fixed values, the output of one projection fed to the other as it is. '
                 '_object_func: parameter vectors as integer / float arrays, lists, tuples; bounds as tuples / arrays / numpy scalars. '
+                'option forwarding: every wrapper once (thorough: 3x) with multinom=False, flush_delay, verbose, ll_scale, func_args, func_kwargs, fixed_params and bounds at '
+                'recognisable non-default values, `_object_func` wrapped: each likelihood-relevant option must reach the parameter of the same name (L3), the whole '
+                'binding must be the generated table (K). grid search also as a whole against the enumeration model (order of the points, values, first minimum). '
+                'perturb_params with fold 0, 1, 2, 3, 5. '
                 'distinct = distinct (wrapper, #params, fixed?, bound kinds, multinom, toy kind, ll_scale, algorithm, full_output, default maxiter, zero-fixed) etc.')
-    chk.unproved = ['convergence / optimality of scipy and NLopt: not claimed; the optimiser is an arbitrary strategy in the theorems',
+    chk.unproved = ['convergence / optimality of scipy and NLopt: not claimed; the optimiser is an arbitrary strategy in the theorems (the grid search is '
+                    'modelled and proved unconditionally: C12_grid_evals / _in_range / _optimum)',
                     'that scipy / NLopt query only inside the bounds they are given (L-BFGS-B, SLSQP, nlopt): an assumption of C12_optimizer_box, validated on every recorded trace',
                     'that a local optimiser queries its start first and returns a point it evaluated together with its value: assumptions of C12_first_eval / '
                     'C12_result_point / C12_no_worse, validated on every recorded trace',
